@@ -56,6 +56,7 @@ type HistRun struct {
 	okHash   map[string]int64 // successful transaction bytes -> height (C04: at most once)
 	okNonce  map[string]int64 // sender/nonce of successful transactions -> height
 	Rejected map[string]int
+	jailed   map[string]int64 // validators jailed for downtime -> height
 }
 
 func totalValue(s *MState) *big.Int {
@@ -524,6 +525,12 @@ func runHistory(c *Ctx, caseIdx int, rng *rand.Rand, o *HistOpts) *HistRun {
 		if m.Ref != nil {
 			m.Ref.Snapshot(h)
 		}
+		for _, a := range so.Jailed {
+			if hr.jailed == nil {
+				hr.jailed = map[string]int64{}
+			}
+			hr.jailed[a] = h
+		}
 		// validator updates (C10)
 		if err := sim.ApplyUpdates(h, res.End.ValidatorUpdates); err != nil {
 			if strings.Contains(err.Error(), "empty set") {
@@ -531,7 +538,7 @@ func runHistory(c *Ctx, caseIdx int, rng *rand.Rand, o *HistOpts) *HistRun {
 				c.Count("aborted-empty-valset", 1)
 				return hr
 			}
-			hr.issue("C10", "malformed-validator-updates", fmt.Sprintf("block %d: Tendermint would reject the validator updates: %v", h, err))
+			hr.issue("C10"+hr.leavingProps(pre, sim.SetAt(h+1)), "malformed-validator-updates", fmt.Sprintf("block %d: Tendermint would reject the validator updates: %v", h, err))
 			return hr
 		}
 		hr.checkValidatorSet(h, pre, &pre.Params)
@@ -597,7 +604,7 @@ func (hr *HistRun) checkValidatorSet(h int64, prev *MState, p *DParams) {
 		want = n
 	}
 	bad := func(msg string) {
-		hr.issue("C10", "validator-set-mismatch", fmt.Sprintf("block %d: %s; set=%s eligible=%s", h, msg, setStr(set), rankStr(ranked)))
+		hr.issue("C10"+hr.leavingProps(prev, set), "validator-set-mismatch", fmt.Sprintf("block %d: %s; set=%s eligible=%s", h, msg, setStr(set), rankStr(ranked)))
 	}
 	if len(set) != want {
 		bad(fmt.Sprintf("validator set has %d members, the staking ledger yields %d", len(set), want))
@@ -635,6 +642,35 @@ func (hr *HistRun) checkValidatorSet(h int64, prev *MState, p *DParams) {
 		}
 	}
 	hr.C.Count("validator-sets-checked", 1)
+}
+
+// leavingProps: when a validator-set problem involves a member whose delegatee record is gone (all its stake is
+// unbonding), the problem is also one of "a released stake carries no voting power" (C12) and, if the validator was
+// jailed for downtime, of "leaves the validator set" (C14).
+func (hr *HistRun) leavingProps(prev *MState, set []simVal) string {
+	out := ""
+	c12, c14 := false, false
+	for _, v := range set {
+		a := hx(v.Addr)
+		if prev.Delegatees[a] != nil {
+			continue
+		}
+		for _, st := range prev.Frozen {
+			if st.To == a {
+				c12 = true
+			}
+		}
+		if _, ok := hr.jailed[a]; ok {
+			c14 = true
+		}
+	}
+	if c12 {
+		out += ",C12"
+	}
+	if c14 {
+		out += ",C14"
+	}
+	return out
 }
 
 func setStr(s []simVal) string {
